@@ -43,6 +43,28 @@ def _is_del_mark(val) -> bool:
     return isinstance(val, np.void) and val.tobytes() == DEL_VALUE.tobytes()
 
 
+def _stores_del_mark(val, dtype=None, shape=None) -> bool:
+    """Return whether storing `val` would put the deletion marker value into a container.
+
+    h5py converts every assigned value with numpy (to the `dtype` of the target, if it
+    has one) and fits it to the `shape` of the target, so the value must be checked as it
+    will be stored, not as it was spelled (e.g. a 0-dim array, or bytes for an opaque type).
+    """
+    if shape is not None and (isinstance(shape, int) or len(shape) > 0):
+        return False  # only a scalar can be a deletion marker
+    if val is None or isinstance(val, (h5py.Empty, IH5Node, h5py.SoftLink)):
+        return False
+    if isinstance(val, np.ndarray) and val.size != 1:
+        return False
+    try:
+        arr = np.asarray(val, dtype=dtype)
+    except (TypeError, ValueError):
+        return False  # not convertible, h5py will refuse to store it
+    if arr.size != 1 or (shape is None and arr.shape != ()):
+        return False
+    return _is_del_mark(arr.reshape(())[()])
+
+
 def _node_is_del_mark(node) -> bool:
     """Return whether node is marking a deleted group/dataset/attribute value."""
     val = node[()] if isinstance(node, h5py.Dataset) else node
@@ -123,8 +145,8 @@ class IH5Node:
         if self._is_read_only:
             raise ValueError("Create a patch in order to change the container!")
 
-    def _guard_value(self, data):
-        if _is_del_mark(data):
+    def _guard_value(self, data, dtype=None, shape=None):
+        if _stores_del_mark(data, dtype, shape):
             raise ValueError(f"Value '{data}' is forbidden, cannot assign!")
         if isinstance(data, IH5Node):
             raise ValueError("Hard links are not supported, cannot assign!")
